@@ -106,12 +106,14 @@ impl Check for FdCheck {
             let o = fd_opts_for(tier, &mut st.workload);
             let program = gen_fd::gen_program(&mut st.workload, &o);
             let cfg = gen_search::sim_cfg(&mut st.schedule, 400_000);
+            // a sixth of the cases run as the body of a dfs block (depth-first conde, bind_dfs)
+            let dfs = st.workload.chance(1, 6);
             let case = Case {
                 property: self.id.into(),
                 oracle: "brute-force".into(),
                 program,
                 cfg,
-                extra: json!({}),
+                extra: json!({"dfs": dfs}),
             };
             tries += 1;
             if self.known_class(&case).is_none() || tries > 50 {
@@ -135,7 +137,7 @@ impl Check for FdCheck {
         format!(
             "case = CLP(FD) program (1-4 variables, interval and sparse domains in [-3,4], <=5(7) constraints of every kind \
              with operand aliasing and constants, arbitrary posting order, ==, optional conde, query term a variable / list / \
-             nested / improper list / #[compound] term (Pair, Duo) around, inside or next to lists, with hidden variables) x (iteration-order policy over run_constraints, \
+             nested / improper list / #[compound] term (Pair, Duo) around, inside or next to lists, with hidden variables; one case in six runs as the body of a dfs block) x (iteration-order policy over run_constraints, \
              process_extension_fd and the labeling order; yields). Oracle R3: brute force over the domain product. {} \
              distinct = (program, decision trace); non-trivial = the program has at least one constraint and the oracle \
              compared at least one answer or verified an expected-empty result",
@@ -154,7 +156,7 @@ impl Check for FdCheck {
             Some(e) => e,
             None => return CaseResult { verdict: Verdict::Inconclusive("outside R3".into()), facts },
         };
-        let run = run_program(p, &case.cfg, 100_000, false);
+        let run = run_program(&exec_program(case), &case.cfg, 100_000, false);
         facts.trace_hash = run.stats.trace_hash;
         facts.stats.push(run.stats.clone());
         match &run.end {
